@@ -6,6 +6,7 @@ late joiners = schedules). This over-approximates every network behaviour, which
 safety properties.
 -/
 import ChitchatModel.Lemmas.CopyWF
+import ChitchatModel.Lemmas.Catchup
 namespace Chitchat
 open NodeState Ledger ClusterState
 
@@ -145,6 +146,13 @@ inductive XStep (guarded : Bool) : XSys → XSys → Prop
       (happ : r.applyDelta d.1 now = .ok (r', st, evs))
       (hguard : guarded = true → ¬ kf1Pattern r d) :
       XStep guarded σ { σ with replicas := σ.replicas.set i r' }
+  | catchup (σ : XSys) (i j : Nat) (s d : NodeState) (hs : σ.replicas[i]? = some s)
+      (hd : σ.replicas[j]? = some d) :
+      -- honest external catch-up: holder `j`'s application fetches holder `i`'s copy and feeds it
+      -- through `reset_node_state_if_update`
+      XStep guarded σ { σ with replicas := σ.replicas.set j (d.catchupCopy s.kvs s.maxVersion s.lastGc) }
+  | catchupFromOwner (σ : XSys) (j : Nat) (d : NodeState) (hd : σ.replicas[j]? = some d) :
+      XStep guarded σ { σ with replicas := σ.replicas.set j (d.catchupCopy σ.owner.kvs σ.owner.maxVersion σ.owner.lastGc) }
   | deliverToOwner (σ : XSys) (d : NodeDelta × Nat) (hd : d ∈ σ.deltas) (now : Nat)
       (o' : NodeState) (st : DeltaStatus) (evs : List Event)
       (happ : σ.owner.applyDelta d.1 now = .ok (o', st, evs)) :
